@@ -128,11 +128,16 @@ func genC14(c *Ctx) {
 		line := fmt.Sprintf("prg %s %s %s", hx(seed), hx(cust), strings.Join(ops, " "))
 		c.Case(class, strings.TrimSpace(line), prgRun(seed, cust, ops))
 	}
-	// constructor guards: every seed length 0..64, customizer length 0..13
-	for l := 0; l <= 64; l++ {
+	// constructor guards: every seed length 0..130 (with a short, a full and an over-long customizer), every
+	// customizer length 0..70 and a few larger ones (the cipher underneath also knows 24-byte nonces and 64-byte blocks)
+	for l := 0; l <= 130; l++ {
 		emit("ctor-seedlen", c.bytes(l), c.bytes(3), []string{"r5"})
+		if l%8 == 0 || l == 33 || l == 31 {
+			emit("ctor-seedlen", c.bytes(l), c.bytes(12), []string{"r5", "st"})
+			emit("ctor-seedlen", c.bytes(l), c.bytes(24), []string{"r5", "st"})
+		}
 	}
-	for l := 0; l <= 14; l++ {
+	for _, l := range append(ranged(0, 70), 96, 128, 255, 256, 1000) {
 		emit("ctor-custlen", c.bytes(32), c.bytes(l), []string{"r70", "st"})
 	}
 	// restore guards: state lengths 0..60
@@ -387,4 +392,13 @@ func genC15(c *Ctx) {
 		emit("nm-random", []string{fmt.Sprintf("p%d", n), fmt.Sprintf("sp%d,%d", n, m), fmt.Sprintf("sm%d,%d", n, m), fmt.Sprintf("sh%d", n)})
 	}
 	emit("negative", []string{"p-5", "sp-1,-1", "sp3,-2", "sm-4,2", "sm2,-4", "sh-3", fmt.Sprintf("p%d", -1<<62)})
+}
+
+// ranged lists a..b
+func ranged(a, b int) []int {
+	out := []int{}
+	for i := a; i <= b; i++ {
+		out = append(out, i)
+	}
+	return out
 }
